@@ -211,8 +211,10 @@ class Bench:
 		by_trx = {}
 		for node in aw.nodes:
 			t = node.trx
+			# documented wiring, not read from the object: every parent powers its children with itself, except the
+			# MS side (the application's second transceiver)
 			m = trxc.Trx(str(t), has_pm = t.pwr_meas is not None, child_idx = t.child_idx,
-				child_mgt = t.child_mgt, has_clock = t.clck_gen is not None)
+				child_mgt = len(b.models) != 1, has_clock = t.clck_gen is not None)
 			by_trx[id(t)] = m
 			b.models.append(m)
 			b.budgets.append(Budget())
